@@ -1664,6 +1664,15 @@ impl<'p> World<'p> {
                         }
                     }
                 }
+                // keys handed over in another encoding of the same value: the id is the digest of the
+                // canonical PASERK text of that value, derived here without the library
+                if let Some(canon) = rec.raw.as_ref().and_then(|r| canonical_key_bytes(rec.family, rec.kind, r)) {
+                    let text = format!("k{}.{}.{}", rec.family, rec.kind.header(), faults::b64(&canon));
+                    let want = refimpl::key_id(bk.family(), rec.kind, &text);
+                    if want != bytes {
+                        self.violate("C13", "id-not-spec-digest", bk, &format!("id-{}", rec.kind.name()), "canonical-encoding", format!("id {s} is not the spec digest of the canonical text {} of the key that was imported from {} bytes", truncate(&text, 60), rec.raw.as_ref().map(|r| r.len()).unwrap_or(0)));
+                    }
+                }
                 // independent digest over the canonical PASERK text
                 if let Out::Ok(text) = be.key_text(rec.kind, &h) {
                     let want = refimpl::key_id(bk.family(), rec.kind, &text);
@@ -1781,6 +1790,14 @@ pub fn canonical_key_bytes(family: u8, kind: Kind, input: &[u8]) -> Option<Vec<u
             2 | 3 if input.len() == 49 && crate::curves::p384_x_on_curve(&input[1..]) => Some(input.to_vec()),
             4 | 6 | 7 if input.len() == 97 && crate::curves::p384_xy_on_curve(&input[1..49], &input[49..]) => {
                 let mut c = vec![2 | (input[96] & 1)];
+                c.extend_from_slice(&input[1..49]);
+                Some(c)
+            }
+            // SEC1 / draft-jivsov compact form (x only): denotes the point with the smaller y
+            5 if input.len() == 49 => {
+                let (y, _) = crate::curves::p384_ys_of_x(&input[1..])?;
+                let odd = y.to_bytes_be().last().map(|b| b & 1).unwrap_or(0);
+                let mut c = vec![2 | odd];
                 c.extend_from_slice(&input[1..49]);
                 Some(c)
             }
